@@ -21,11 +21,12 @@ import (
 //	  -> crash <exit status | signal name | timeout> x<tail of stderr>
 //
 // file  : ion-go process -f <format> -o <tmp out> -e <tmp report> <tmp in>
+// file2 : the same, but <tmp out> and <tmp report> already exist and hold 8 KiB of older content
 // stdin : ion-go process -f <format> -e <tmp report>   (input on stdin, output on stdout)
 // "crash" = killed by a signal, timed out, or a Go panic / fatal error trace on stderr.
 func init() {
 	register("cli", func(a []string) string {
-		if len(a) != 3 || (a[1] != "file" && a[1] != "stdin") {
+		if len(a) != 3 || (a[1] != "file" && a[1] != "file2" && a[1] != "stdin") {
 			return "badinput"
 		}
 		in, ok := unx(a[2])
@@ -47,9 +48,15 @@ func init() {
 		defer cancel()
 		var cmd *exec.Cmd
 		var stdout, stderr bytes.Buffer
-		if a[1] == "file" {
+		if a[1] == "file" || a[1] == "file2" {
 			if err := ioutil.WriteFile(inf, in, 0600); err != nil {
 				return "badinput"
+			}
+			if a[1] == "file2" {
+				stale := bytes.Repeat([]byte("stale_content 12345 \"left over\"\n"), 256)
+				if ioutil.WriteFile(outf, stale, 0600) != nil || ioutil.WriteFile(errf, stale, 0600) != nil {
+					return "badinput"
+				}
 			}
 			cmd = exec.CommandContext(ctx, bin, "process", "-f", a[0], "-o", outf, "-e", errf, inf)
 		} else {
@@ -89,7 +96,7 @@ func init() {
 			return fmt.Sprintf("crash %d %s", status, tail())
 		}
 		var out []byte
-		if a[1] == "file" {
+		if a[1] == "file" || a[1] == "file2" {
 			out, _ = ioutil.ReadFile(outf)
 			// anything the command printed itself (usage text after an error) is kept visible
 			out = append(out, stdout.Bytes()...)
